@@ -14,6 +14,14 @@ ASSUMPTIONS = [
     "labels observed from the real objects; equality of the views (as_dataframe, __array__, tuple "
     "unpacking, __getitem__) and the printed shape are checked on the Python side",
     "the Lean model of the containers is compared on designs over the exactly modelled atoms",
+    "a second family of designs (seed paths 'fl<i>') uses categorical predictors and grouping factors "
+    "whose levels are floats that agree in their first 6 significant digits (b * (1 + j * 2^-k), "
+    "24 <= k <= 44): a float column through C()/T()/S() and as grouping factor, a pandas Categorical "
+    "with float categories also bare; new frames may carry an unseen float level.  Levels of the "
+    "evaluation model are strings or integers (Model/Frame.lean: Level), so these designs are judged "
+    "by Spec.C17.holds (unique labels, slices, rows) and the Python-side view checks alone, as is "
+    "done for scale / bs / poly atoms; uniqueness of `groups` is covered through the group labels "
+    "`effect|factor[group]`, which embed them",
 ]
 TRUSTED = ["numpy column_stack / slicing, pandas DataFrame construction (modelled by hstack/slices)"]
 
@@ -114,12 +122,78 @@ def new_frames(rng, df, with_unseen):
         idx = [rng.randrange(len(df)) for _ in range(rng.randrange(1, 7))]
         nd = df.iloc[idx].reset_index(drop=True).copy()
         if with_unseen and rng.random() < 0.6:
-            col = rng.choice(["g", "h"])
+            col = rng.choice(["g", "h"] + (["fl"] if "fl" in nd.columns else []))
             k = rng.randrange(len(nd))
-            nd[col] = nd[col].astype(object)
-            nd.loc[k, col] = "NEW_" + col
+            if col == "fl":        # an unseen float level next to a seen one
+                nd.loc[k, col] = float(nd.loc[k, col]) * (1 + 2.0 ** -20)
+            else:
+                nd[col] = nd[col].astype(object)
+                nd.loc[k, col] = "NEW_" + col
         out.append(designs.scramble_index(rng, nd))
     return out
+
+
+# ------------------------------------------------------------------------------------------------
+# categorical predictors / grouping factors whose levels are floats that differ only beyond the 6th
+# significant digit (numeric ids >= 1e6 stored as float, results of float arithmetic such as
+# 0.1 + 0.2 next to 0.3): their labels must still be unique.  Built on top of designs.gen_frame.
+# ------------------------------------------------------------------------------------------------
+def close_float_levels(r):
+    """3-4 distinct floats; the first three agree in (at least) their first 6 significant digits"""
+    b = r.choice([0.3, 2.5, 0.7, 1000.0, 1e6, 123456.0, 1e-3, 1e7, 0.1]) * r.randrange(1, 9)
+    k = r.randrange(24, 45)
+    js = [0] + r.sample(range(1, 8), 2)
+    lv = [b * (1 + j * 2.0 ** -k) for j in js]
+    if r.random() < 0.4:
+        lv.append(b * r.choice([0.5, 2, 10]))          # a well separated level as well
+    assert len(set(lv)) == len(lv) and len({str(v) for v in lv}) == len(lv)
+    return lv
+
+
+def add_float_columns(r, df):
+    """`fl`: float column (categorical through C()/T()/S() and as grouping factor), `flc`: pandas
+    Categorical with float categories in shuffled declared order (categorical also when bare)"""
+    n = len(df)
+    out = df.copy()
+    for name in ("fl", "flc"):
+        lv = close_float_levels(r)
+        xs = [lv[i % len(lv)] for i in range(n)]       # every level occurs (n >= 8)
+        r.shuffle(xs)
+        if name == "flc":
+            cats = list(lv)
+            r.shuffle(cats)
+            out[name] = pd.Categorical(xs, categories=cats)
+        else:
+            out[name] = xs
+    return out
+
+
+FLOAT_CAT = ["C(fl)", "flc", "S(fl)", "T(flc)", "C(fl):x", "f:C(fl)", "flc:h", "C(fl, Treatment)",
+             "C(flc, Sum)", "z:flc", "C(fl):flc", "S(flc):g"]
+FLOAT_GROUP = ["(1 | fl)", "(x | fl)", "(0 + f | flc)", "(z | C(fl))", "(1 | fl:h)", "(1 | g:flc)",
+               "(x | g) + (1 | fl)", "(1 | fl) + (z | h)", "(flc | g)", "(0 + C(fl) | h)",
+               "(x | flc) + (1 | fl)", "(1 | C(flc))"]
+
+
+def gen_float_formula(r):
+    terms = r.sample(FLOAT_CAT, r.choice([0, 1, 1, 2]))
+    for _ in range(r.randrange(0, 3)):
+        t = designs.gen_term(r, extra=True)
+        if "levels=" in t or "C(co)" in t:
+            continue          # D13 class (cannot be evaluated on a frame lacking a level): C06's
+        if t not in terms:
+            terms.append(t)
+    if not terms or r.random() < 0.6:
+        terms.append(r.choice(FLOAT_GROUP))
+        if r.random() < 0.3:
+            terms.append(designs.gen_group(r))
+    r.shuffle(terms)
+    resp = r.choice(["y", "y", "yc", "yc[yes]", "p(s, n)"])
+    return f"{resp} ~ " + r.choice(["", "", "0 + ", "1 + "]) + " + ".join(terms)
+
+
+def is_float_path(path):
+    return isinstance(path, str) and path.startswith("fl")
 
 
 def explore(tier, seed, res=None, replay=None):
@@ -127,7 +201,9 @@ def explore(tier, seed, res=None, replay=None):
     res = res or Result()
     res.rule = ("generated (formula, frame) designs incl. group-specific terms and non-modelled "
                 "transforms, each followed by chains of 1-3 evaluate_new_data calls (60% with an "
-                "unseen group under the 'silent' policy); non-trivial = a design with >= 2 terms in "
+                "unseen group under the 'silent' policy), plus designs over categorical predictors / "
+                "grouping factors with float levels that differ only beyond the 6th significant "
+                "digit; non-trivial = a design with >= 2 terms in "
                 "some matrix; distinct by formula text")
     rng = rng_for(seed, "c17")
     n_cases = 300 if tier == "quick" else 10000
@@ -139,13 +215,20 @@ def explore(tier, seed, res=None, replay=None):
             cases.append((f, len(cases)))
         for i in range(n_cases):
             cases.append((None, len(cases)))
+        for i in range(100 if tier == "quick" else 3000):
+            cases.append((None, f"fl{i}"))
     open_ids = {k["id"] for k in known_findings("C17")}
     views, owners, reqs, req_owner = [], [], [], []
     records = []
     for f, path in cases:
         r = rng_for(seed, "c17", path)
         df = designs.gen_frame(r)
-        formula = f or designs.gen_formula(r, extra=True)
+        if is_float_path(path):
+            df = add_float_columns(r, df)
+            formula = f or gen_float_formula(r)
+            res.count("float_level_cases")
+        else:
+            formula = f or designs.gen_formula(r, extra=True)
         res.evaluations += 1
         with_unseen = r.random() < 0.6
         news = new_frames(r, df, with_unseen)
@@ -201,8 +284,13 @@ def explore(tier, seed, res=None, replay=None):
             res.nontrivial.add(formula)
         res.count("objects", len(rec["views"]))
         req["new"] = req["new"][:0]        # the containers of the training design are compared
-        reqs.append(req)
-        req_owner.append((rec, obs))
+        if is_float_path(path) and ("fl" in dm.model.var_names or "flc" in dm.model.var_names):
+            # levels of the evaluation model are strings or integers (Model/Frame.lean: Level):
+            # float levels are outside it; these designs are judged by Spec.C17.holds alone
+            res.count("model_skip:float levels are not representable in the evaluation model")
+        else:
+            reqs.append(req)
+            req_owner.append((rec, obs))
         if len(res.samples) < 5:
             res.samples.append({"formula": formula, "views": rec["views"][:2]})
 
